@@ -215,8 +215,16 @@ pub(super) fn slice_element(p: &mut Parser) -> CompletedMarker {
     value(p);
     if p.at_set(&[T![...], T![-]]) {
         p.eat();
+        // a range operator must be followed by the end of the range
+        value(p);
+    } else if p.at(TokenKind::IntVal) {
+        // "1-2" is lexed as two integers
+        p.start_node(SyntaxKind::Value);
+        p.start_node(SyntaxKind::InnerValue);
+        integer(p);
+        p.finish_node();
+        p.finish_node();
     }
-    opt_value(p);
     p.finish_node();
     CompletedMarker::Success
 }
